@@ -240,6 +240,30 @@ class HookVal:
         return 'http://h/' + str(self.h)
 
 
+class Proxy:
+    """Wrapper (as acquisition wrappers are): one class for everything it
+    wraps; which protocols an instance offers depends on the wrapped
+    object."""
+
+    def __init__(self, obj):
+        self.__dict__['_obj'] = obj
+
+    def __getattr__(self, name):
+        return getattr(self.__dict__['_obj'], name)
+
+    def __getitem__(self, i):
+        return self.__dict__['_obj'][i]
+
+    def __len__(self):
+        return len(self.__dict__['_obj'])
+
+    def __iter__(self):
+        return iter(self.__dict__['_obj'])
+
+    def __repr__(self):
+        return '<Proxy of %s>' % type(self.__dict__['_obj']).__name__
+
+
 class Mutator:
     """Callable that changes the size of a mapping that is on the namespace
     stack (the harness sets .target): mode 'add' binds a new key, 'del'
@@ -366,6 +390,8 @@ def build(spec, world, mode, keep=None):
         return TreeNode(world, spec['id'],
                         [build(x, world, mode, keep)
                          for x in spec.get('children', [])])
+    if t == 'proxy':
+        return Proxy(build(spec['of'], world, mode, keep))
     if t == 'response':
         return Response(world)
     if t == 'mutator':
